@@ -592,6 +592,28 @@ def _baseline(run):
                     ident = _ident_fn(name)(env.reset(E.batch_of(cfg, [it.row])))[0]
                     seen = [c["reward"][c["ids"].index(ident)] for c in w["calls"] if ident in c["ids"]]
                     if seen and abs(seen[-1] - got) <= _tol(want) and abs(seen[-1] - want) > _tol(want):
+                        # the baseline policy itself scored this instance differently inside its evaluation batch.
+                        # A greedy near-tie flipping between two batch layouts is C14's ground; but the value must at
+                        # least be what the *frozen, inference-mode* baseline policy gives on that very batch: replay
+                        # the batch in eval mode -- a value that only a training-mode forward produces (batch
+                        # statistics, dropout) is not "the baseline policy's reward on instance i"
+                        call = [c for c in w["calls"] if ident in c["ids"]][-1]
+                        id2row = {}
+                        for o in ref.items:
+                            id2row[_ident_fn(name)(env.reset(E.batch_of(cfg, [o.row])))[0]] = o.row
+                        if all(i in id2row for i in call["ids"]):
+                            with run.guard(scope, "eval-mode replay of the baseline's evaluation batch", promise=False):
+                                _a, r_eval = PU.greedy(w["policy"].inner, env,
+                                                       E.batch_of(cfg, [id2row[i] for i in call["ids"]]))
+                            if abs(r_eval[call["ids"].index(ident)] - got) > _tol(want):
+                                run.violate(scope, "extra_is_baseline_reward",
+                                            f"epoch {ep} batch {bi} row {ri}: extra {got!r} for instance {it.index} is neither "
+                                            f"the baseline policy's reward on it alone ({want!r}) nor what the policy gives in "
+                                            f"inference mode on its evaluation batch ({r_eval[call['ids'].index(ident)]!r}): "
+                                            f"the value depends on the module's training mode / batch-mates",
+                                            constraint="extra_mode_dependent", epoch=ep, got=got, want=want,
+                                            instance=it.index, eval_bs=ebs, n=N, env=name, baseline=plan["baseline"])
+                                raise StopRun()
                         run.probe("indeterminate_policy_batch_dependence")
                         continue
                     owner = [o.index for o in ref.items if abs(solo(w["policy"], o.row) - got) <= _tol(got)]
